@@ -155,6 +155,39 @@ theorem first_has_largest_handle {w : World} (hw : WheelInv w) {s : Nat} {x : In
     have hser : c.serial < x.2.serial := by omega
     exact handle_lt_of_serial_lt (p := (x.1, c)) (q := x) ec ex hser
 
+/-- if `x` is the first entry of its slot list satisfying a predicate, every other entry `c` of the wheel that
+    satisfies it and belongs to the same slot (same second modulo the wheel size) is not earlier than `x` -/
+theorem first_is_earliest {w : World} (hw : WheelInv w) {s : Nat} {x : Int × Call}
+    {A B : List (Int × Call)} (h1 : cum 0 (w.slots s) = A ++ x :: B) {c : Call} (hc : InWheel w c)
+    (hmod : c.due % (N : Int) = x.2.due % (N : Int)) (hA : ∀ y ∈ A, y.2 ≠ c) : x.2.due ≤ c.due := by
+  have hx : x ∈ cum 0 (w.slots s) := by rw [h1]; simp
+  have ex := hw.ent s x hx
+  obtain ⟨s', D, hm⟩ := hc
+  have ec := hw.ent s' _ hm
+  have hs : s' = s := by
+    have a := dueOf_mod s' w.cot D ec.slot
+    have b := dueOf_mod s w.cot x.1 ex.slot
+    rw [← ec.due] at a; rw [← ex.due] at b
+    simp only [] at a
+    rw [hmod, b] at a
+    omega
+  subst hs
+  have hsorted := hw.sorted s'
+  rw [h1] at hm hsorted
+  simp only [List.mem_append, List.mem_cons] at hm
+  rcases hm with hm | hm | hm
+  · exact absurd rfl (hA _ hm)
+  · rw [← hm]; exact Int.le_refl _
+  · rw [List.pairwise_append] at hsorted
+    have := before_le ((List.pairwise_cons.1 hsorted.2.1).1 _ hm)
+    simp only [] at this
+    have hnlt : ¬ (dueOf s' w.cot D < dueOf s' w.cot x.1) := by
+      rw [dueOf_lt_iff]; omega
+    rw [ex.due]
+    have := ec.due
+    simp only [] at this
+    rw [this]; omega
+
 /-- calls in the wheel after `new_call_out` -/
 theorem inWheel_newCallOut {w : World} (o f : Nat) (tag : String) (delay : Int) (fp : Bool) (c : Call) :
     InWheel (newCallOut w o f tag delay fp).1 c ↔ (c = coCall w o f tag delay fp ∨ InWheel w c) := by
